@@ -33,6 +33,7 @@ import (
 	"github.com/bytom/bytom/protocol/bc/types"
 	"github.com/bytom/bytom/protocol/validation"
 	"github.com/bytom/bytom/protocol/vm"
+	"verifharness/fraglib"
 	. "verifharness/hlib"
 )
 
@@ -1167,5 +1168,9 @@ func runC01(c *Ctx) error {
 	c.Stats.Rule = "real types.TxData (1-12 inputs: spend/issuance/veto/coinbase; 0-13 outputs: original/vote/retirement; 1-4 assets incl. BTM; OP_TRUE-style programs) mapped by types.MapTx and validated by validation.ValidateTx against a mock block. Streams: balanced multisets with per-asset totals on the boundary (0,1,2^31,2^32,2^63-1-k, uniform) and fees around the gas need; raw multisets with amounts from {0,1,2^31-1,2^31+1,2^63-1,2^63,2^64-1} and uniform; uint64/int64 wrap-around attacks (totals 2^64+k, 2^63+k); the coinbase family (rewards, wrapped totals, non-BTM outputs, two coinbases, misplaced, mixed with other inputs); single-field mutations of accepted transactions (amount +-1, asset swap, drop/duplicate output or input, kind change, size, version, time range, vote key, program, added coinbase). A case is non-trivial when it is accepted with at least 3 inputs+outputs or rejected with a value error. Oracle (math/big on the TxData): accepted => every non-BTM asset in = out; without coinbase: BTM out <= in and GasState.BTMValue = in - out = TxData.Fee(); coinbase-only: BTMValue = Fee() = 0, BTM outputs only, total <= 2^63-1; never a panic."
 	hdr := "From Coq Require Import ZArith NArith List Bool.\nFrom Verif Require Import Outcome.\nFrom C01 Require Import Model Run.\nImport ListNotations.\nOpen Scope Z_scope.\n" +
 		fmt.Sprintf("Definition CS : consts := mkC %d %d %d %d %d.\n", consensus.VMGasRate, consensus.MaxGasAmount, consensus.StorageGasRate, consensus.MinVoteOutputAmount, consensus.CoinbaseArbitrarySizeLimit)
-	return c.Cases.Write(c.Out, hdr, "obs", "obs_eqb")
+	if err := c.Cases.Write(c.Out, hdr, "obs", "obs_eqb"); err != nil {
+		return err
+	}
+	// translator cross-check: the generated GasState methods (C01/Tie.v) against the compiled ones
+	return fraglib.GasState(c, "")
 }
